@@ -23,6 +23,7 @@ ANCHORS = ['pycaption.dfxp.base:DFXPWriter._encode', 'pycaption.dfxp.base:DFXPWr
            'pycaption.webvtt:WebVTTWriter._group_cues_by_layout',
            'pycaption.srt:SRTWriter._recreate_lang', 'pycaption.srt:SRTWriter._recreate_line',
            'pycaption.microdvd:MicroDVDWriter._recreate_lang']
+THOROUGH_SCALE = 5        # random budgets of the thorough tier are multiplied by this
 REQUIRE = {'writes_' + w: 30 for w in W.WRITERS}
 REQUIRE.update({'captions_with_empty_lines': 50, 'captions_with_arrow': 10, 'captions_with_amp_or_lt': 100,
                 'captions_with_style_between_breaks': 5, 'lines_compared': 2000})
